@@ -364,7 +364,12 @@ class ProjectRegistriesAndRunNames(Contract):
 
         ds = xr.Dataset({"data": (("time", "spectral"), np.ones((2, 2)))}, coords={"time": [0.0, 1.0], "spectral": [0.0, 1.0]})
         with tempfile.TemporaryDirectory() as d:
-            for kind, exists, allow, ignore in itertools.product(("model", "parameters_csv", "parameters_yml", "data"), (False, True), (False, True), (False, True)):
+            # siblings: files of the same name in another format next to the target (the registries key items by
+            # stem, so a sibling may own the plain name) - they must stay byte-identical whatever happens
+            sibling_suffixes = {"model": ("yaml",), "parameters_csv": ("yml", "ods"), "parameters_yml": ("csv", "yaml"), "data": ("ascii",)}
+            combos = [(k, e, a, i, ()) for k, e, a, i in itertools.product(("model", "parameters_csv", "parameters_yml", "data"), (False, True), (False, True), (False, True))]
+            combos += [(k, e, a, i, (sfx,)) for k in sibling_suffixes for sfx in sibling_suffixes[k] for e, a, i in itertools.product((False, True), (False, True), (False, True))]
+            for kind, exists, allow, ignore, siblings in combos:
                 n += 1
                 root = Path(d) / f"q{n}"
                 root.mkdir()
@@ -383,12 +388,17 @@ class ProjectRegistriesAndRunNames(Contract):
                     act = lambda: reg.import_data(ds, dataset_name="item", allow_overwrite=allow, ignore_existing=ignore)  # noqa: E731
                 if exists:
                     target.write_bytes(b"PRECIOUS")
+                sib = [target.with_suffix("." + sfx) for sfx in siblings]
+                for f in sib:
+                    f.write_bytes(b"SIBLING")
                 try:
                     act()
                     exc = None
                 except Exception as e:
                     exc = e
                 content = target.read_bytes() if target.exists() else None
+                if any((not f.exists()) or f.read_bytes() != b"SIBLING" for f in sib):
+                    bad = bad or {"kind": kind, "exists": exists, "allow_overwrite": allow, "ignore_existing": ignore, "siblings": siblings, "why": "a file of the same name in another format was changed"}
                 if exists and not allow:
                     ok = content == b"PRECIOUS" and ((exc is None) if ignore else isinstance(exc, FileExistsError))
                 elif exists and allow:
@@ -396,6 +406,6 @@ class ProjectRegistriesAndRunNames(Contract):
                 else:
                     ok = exc is None and content is not None
                 if not ok:
-                    bad = bad or {"kind": kind, "exists": exists, "allow_overwrite": allow, "ignore_existing": ignore, "exception": repr(exc), "content_kept": content == b"PRECIOUS"}
-        out.append({"name": "bounded_generated_and_imported_files_respect_existing_ones", "ok": bad is None, "case": f"{n} combinations of kind x exists x allow_overwrite x ignore_existing", "function": "project registries", "witness": bad, "detail": "exhaustive decision table on real directories (bounded stand-in)"})
+                    bad = bad or {"kind": kind, "exists": exists, "allow_overwrite": allow, "ignore_existing": ignore, "siblings": siblings, "exception": repr(exc), "content_kept": content == b"PRECIOUS"}
+        out.append({"name": "bounded_generated_and_imported_files_respect_existing_ones", "ok": bad is None, "case": f"{n} combinations of kind x exists x allow_overwrite x ignore_existing x same-name file of another format", "function": "project registries", "witness": bad, "detail": "exhaustive decision table on real directories (bounded stand-in)"})
         return out
